@@ -3,10 +3,14 @@ package checks
 import "gosym/sym"
 
 func init() {
-	exact := sym.Config{Float: sym.FloatReal, OneShotAsserts: true, StopAfterViolation: true}
+	// every query (feasibility and assertion) goes to fresh z3 / cvc5 / z3-new processes:
+	// z3's incremental nlsat stalls on some non-linear feasibility queries that another
+	// back end answers at once (measured: C13 round trip 17 s instead of 153 s)
+	exact := sym.Config{Float: sym.FloatReal, OneShotAsserts: true, OneShotAll: true, StopAfterViolation: true}
+	tryExact := sym.Config{Float: sym.FloatReal, OneShotAsserts: true, OneShotAll: true, StopAfterViolation: true, StopAfterUnknown: true}
 	Register(&Spec{
-		ID:    "C20",
-		Level: "model_checking",
+		ID:          "C20",
+		Level:       "model_checking",
 		Explanation: "exact real arithmetic over the symbolic execution of matrix.Matrix3/Vector3 and ciexyz.TransformToXYZForXYYPrimaries (values are rational functions num/den of the symbolic inputs; the solver sees polynomial (in)equalities only): (1) MulM, MulV, Transpose, Dot, MulS are the textbook operations for all real entries; (2) M*Inverse(M) = Inverse(M)*M = I for every real M with |det| >= 1e-3; (3) for every primary triangle with x in [0,0.8], y in [1e-4,0.9], area >= 0.01 and white strictly inside, the generated matrix maps (1,1,1) to the white point's XYZ and each unit primary to that primary's chromaticity (exact identities); (4) bit-precise float64: matrices with a zero column or two equal columns (entries in [-4,4]) make Inverse panic (det == 0 exactly). Float rounding in (1)-(3) is outside the claim (rounding budget, DESIGN 3.6)",
 		Bounds: func(tier string) map[string]interface{} {
 			o := "counter-clockwise triangles (quick)"
@@ -29,16 +33,16 @@ func init() {
 			}
 			if tier == "thorough" {
 				runs = append(runs,
-					&Run{H: sym.Harness{Pkg: "ciexyz", Func: "VerifHarness_C20_PrimariesInverse", Cfg: exact, TimeoutMs: 600000}, BestEffort: true},
-					&Run{H: sym.Harness{Pkg: "matrix", Func: "VerifHarness_C20_Singular", Cfg: sym.Config{OneShotAll: true, OneShotAsserts: true}, TimeoutMs: 900000, Workers: 6, SetGlobals: map[string]int64{"verifC20Kinds": 6}}, BestEffort: true})
+					&Run{H: sym.Harness{Pkg: "ciexyz", Func: "VerifHarness_C20_PrimariesInverse", Cfg: tryExact, WallBudgetMs: 600000, TimeoutMs: 240000}, BestEffort: true},
+					&Run{H: sym.Harness{Pkg: "matrix", Func: "VerifHarness_C20_Singular", Cfg: sym.Config{OneShotAll: true, OneShotAsserts: true}, TimeoutMs: 300000, WallBudgetMs: 900000, Workers: 6, SetGlobals: map[string]int64{"verifC20Kinds": 6}}, BestEffort: true})
 			}
 			return runs
 		},
 		Assumptions: []string{"float64/float32 rounding is not modelled in the exact-real parts: the real-arithmetic identities hold exactly; accumulated rounding is assumed below the property's tolerance (1e-9 x condition number)"},
 	})
 	Register(&Spec{
-		ID:    "C12",
-		Level: "model_checking",
+		ID:          "C12",
+		Level:       "model_checking",
 		Explanation: "exact real arithmetic (rational functions) over the symbolic execution of ciexyz.AdaptBetweenXYYWhitePoints/AdaptBetweenXYZWhitePoints/Apply with the package's own bradfordForward/bradfordInverse (the latter computed by the executor from the real initialiser): for all pairs of valid white points (chromaticity in [0.2,0.5]^2, Bradford cone responses >= 0.15) A->B maps white A onto white B within 1e-6, every entry equals Binv*diag(rho_B/rho_A)*B built from the published Bradford matrix and its textbook inverse within 1e-6, A->A is the identity within 1e-9, the xyY and XYZ constructors coincide, Apply is the matrix-vector product; A->B then B->A is the identity within 1e-6 (white points as free XYZ with cone responses in [0.15,3])",
 		Bounds: func(tier string) map[string]interface{} {
 			return map[string]interface{}{"white_points": "all valid chromaticities (see explanation), as reals", "colours": "all real XYZ for linearity", "outside": "A->B then B->C = A->C for three free white points is attempted in the thorough tier only (times out within 100 s per entry in this sandbox: reported as a reduced bound); float rounding (budget assumption)"}
@@ -51,17 +55,17 @@ func init() {
 			}
 			if tier == "thorough" {
 				runs = append(runs,
-					&Run{H: sym.Harness{Pkg: "ciexyz", Func: "VerifHarness_C12_SharedCoordinate", Cfg: exact, TimeoutMs: 300000}, BestEffort: true},
-					&Run{H: sym.Harness{Pkg: "ciexyz", Func: "VerifHarness_C12_RoundTrip", Cfg: exact, TimeoutMs: 600000}, BestEffort: true},
-					&Run{H: sym.Harness{Pkg: "ciexyz", Func: "VerifHarness_C12_Compose", Cfg: exact, TimeoutMs: 600000}, BestEffort: true})
+					&Run{H: sym.Harness{Pkg: "ciexyz", Func: "VerifHarness_C12_SharedCoordinate", Cfg: tryExact, WallBudgetMs: 600000, TimeoutMs: 300000}, BestEffort: true},
+					&Run{H: sym.Harness{Pkg: "ciexyz", Func: "VerifHarness_C12_RoundTrip", Cfg: tryExact, WallBudgetMs: 600000, TimeoutMs: 240000}, BestEffort: true},
+					&Run{H: sym.Harness{Pkg: "ciexyz", Func: "VerifHarness_C12_Compose", Cfg: tryExact, WallBudgetMs: 600000, TimeoutMs: 240000}, BestEffort: true})
 			}
 			return runs
 		},
 		Assumptions: []string{"float rounding is not modelled (exact reals with the float64-rounded Bradford constants the code uses); accumulated rounding is assumed below 1e-9"},
 	})
 	Register(&Spec{
-		ID:    "C13",
-		Level: "model_checking",
+		ID:          "C13",
+		Level:       "model_checking",
 		Explanation: "exact real arithmetic over the symbolic execution of Color.ToLAB and ColorFromLAB (every branch combination is a path; math.Pow(x,1/3) and math.Pow(x,3) enter through the cube-root witness contract): L*, a*, b* equal the CIE 1976 definition written independently in the harness within 1e-3; the reference white maps to (100,0,0) and its multiples have a*=b*=0; L* is non-decreasing in Y (allowance 1e-9 at the junction for the rounded constants) and f is continuous and 7.788-Lipschitz across 216/24389; XYZ->Lab->XYZ returns the input within 1e-5; on every path each cube root has a positive base and each divisor is non-zero (no NaN/Inf from finite inputs)",
 		Bounds: func(tier string) map[string]interface{} {
 			return map[string]interface{}{"xyz": "[-0.5,2]^3 (round trip: [0,2]^3)", "white": "[0.25,2]^3", "outside": "Lab->XYZ->Lab (attempted in the thorough tier; undecided within the time limit here), accuracy of the platform's math.Pow, float rounding (budget)"}
@@ -75,7 +79,7 @@ func init() {
 				{H: sym.Harness{Pkg: "ciexyz", Func: "VerifHarness_C13_NegControl", Cfg: exact}, NegControl: true},
 			}
 			if tier == "thorough" {
-				runs = append(runs, &Run{H: sym.Harness{Pkg: "ciexyz", Func: "VerifHarness_C13_LabRoundTrip", Cfg: exact, TimeoutMs: 600000, Workers: 8}, BestEffort: true})
+				runs = append(runs, &Run{H: sym.Harness{Pkg: "ciexyz", Func: "VerifHarness_C13_LabRoundTrip", Cfg: tryExact, WallBudgetMs: 600000, TimeoutMs: 120000, Workers: 14, MaxPaths: 200}, BestEffort: true})
 			}
 			return runs
 		},
